@@ -508,35 +508,87 @@ class _Run:
             return Tag("ok")
         raise ValueError(op)
 
-    def run(self, ops):
+    def _classify(self, op, fn):
+        """Run fn(); map the expected exception classes of operation op to a canonical result."""
         from breezy import errors
         from bzrformats.errors import BzrCheckError
+        try:
+            return fn()
+        except BzrCheckError as e:
+            return Err("BzrCheckError:finish" if "Newly created pack file" in str(e) else "BzrCheckError")
+        except errors.UnresumableWriteGroup:
+            return Err("UnresumableWriteGroup")
+        except AssertionError as e:
+            if op[0] == "start" and "writable index" in str(e):
+                return Err("AssertionError:start")
+            if op[0] != "resume" or "already in _packs_by_name" not in str(e):
+                return Err("UNEXPECTED:AssertionError:%s" % str(e)[:80])
+            return Err("AssertionError")
+        except errors.BzrError as e:
+            if type(e) is not errors.BzrError:
+                return Err("UNEXPECTED:%s:%s" % (type(e).__name__, str(e)[:80]))
+            return Err("BzrError")
+        except Exception as e:
+            if op[0] in ("abortf", "suspendf") and type(e).__name__ == "NoSuchFile":
+                return Err("NoSuchFile")
+            # never silent: the oracle reports it, after checking the operations before it
+            return Err("UNEXPECTED:%s:%s" % (type(e).__name__, str(e)[:80]))
+
+    def _with_block(self, op, record):
+        """A real `with WriteGroup(repo, suppress_errors):` block: enter, insert, then leave normally or by raising
+        an exception of the requested kind (optionally while every transport operation on upload/ fails).
+        One trace entry per primitive step of _expand([op])."""
+        from breezy.repository import WriteGroup
+        _, ks, kind, sup, fault = op
+        up = os.path.join(self.path, ".bzr", "repository", "upload")
+        st = {"entered": False, "moved": False, "stop": False}
+        propagated = None
+        try:
+            with WriteGroup(self.repo, suppress_errors=bool(sup)):
+                st["entered"] = True
+                self.new_seq, self.res_names = [], []
+                record(["start"], Tag("ok"), None)
+                for k in ks:
+                    r = self._classify(["ins", k], lambda: self.do(["ins", k]))
+                    record(["ins", k], r, None)
+                    if str(r).startswith("UNEXPECTED:"):
+                        st["stop"] = True
+                        break
+                if kind != "normal" and not st["stop"]:
+                    if fault:
+                        os.rename(up, up + ".away")
+                        st["moved"] = True
+                    raise WITH_EXC[kind]("raised inside the with block")
+        except BaseException as e:      # noqa: the block is left by KeyboardInterrupt / SystemExit / GeneratorExit too
+            propagated = e
+        finally:
+            if st["moved"]:
+                os.rename(up + ".away", up)
+                if not self.repo.is_in_write_group():
+                    for f in os.listdir(up):
+                        if f.endswith(".pack") and len(f) == 25:
+                            os.unlink(os.path.join(up, f))
+        if not st["entered"]:
+            raise ValueError("with-block could not be entered: %r" % (propagated,))
+        if st["stop"]:
+            return
+        last = _expand([op])[-1]
+        if kind == "normal":
+            res = Tag("ok") if propagated is None else self._classify(last, lambda: _reraise(propagated))
+        else:
+            want = "NoSuchFile" if (fault and not sup) else WITH_EXC[kind].__name__
+            got = type(propagated).__name__ if propagated is not None else "nothing"
+            if got != want:
+                res = Err("UNEXPECTED:the with block was left by %s, expected %s" % (got, want))
+            else:
+                res = Err("NoSuchFile") if want == "NoSuchFile" else Tag("ok")
+        record(last, res, {"raised": kind, "propagated": type(propagated).__name__ if propagated is not None else None})
+
+    def run(self, ops):
         trace = []
-        before = self.disk()
-        for op in ops:
-            try:
-                res = self.do(op)
-            except BzrCheckError as e:
-                res = Err("BzrCheckError:finish" if "Newly created pack file" in str(e) else "BzrCheckError")
-            except errors.UnresumableWriteGroup:
-                res = Err("UnresumableWriteGroup")
-            except AssertionError as e:
-                if op[0] == "start" and "writable index" in str(e):
-                    res = Err("AssertionError:start")
-                elif op[0] != "resume" or "already in _packs_by_name" not in str(e):
-                    res = Err("UNEXPECTED:AssertionError:%s" % str(e)[:80])
-                else:
-                    res = Err("AssertionError")
-            except errors.BzrError as e:
-                if type(e) is not errors.BzrError:
-                    raise
-                res = Err("BzrError")
-            except Exception as e:
-                if op[0] in ("abortf", "suspendf") and type(e).__name__ == "NoSuchFile":
-                    res = Err("NoSuchFile")
-                else:
-                    # never silent: the oracle reports it, after checking the operations before it
-                    res = Err("UNEXPECTED:%s:%s" % (type(e).__name__, str(e)[:80]))
+        state = {"before": self.disk()}
+
+        def record(op, res, extra):
             vis, names, bad, missing = self.disk()
             sus, tmp, stray = self.upload()
             inwg = self.repo.is_in_write_group()
@@ -545,12 +597,45 @@ class _Run:
             except Exception as e:
                 view = Err("view:" + type(e).__name__)
             tracked = sorted(set(list(self.new_seq) + [k for n in self.res_names for k in n])) if inwg else None
-            trace.append([res, vis, names != before[1], sus, inwg, view,
-                          {"tmp": tmp, "stray": stray, "bad": bad, "missing_files": missing, "tracked": tracked}])
-            before = (vis, names, bad, missing)
-            if str(res).startswith("UNEXPECTED:"):
+            ex = {"tmp": tmp, "stray": stray, "bad": bad, "missing_files": missing, "tracked": tracked}
+            if extra:
+                ex.update(extra)
+            trace.append([res, vis, names != state["before"][1], sus, inwg, view, ex])
+            state["before"] = (vis, names, bad, missing)
+
+        for op in ops:
+            if op[0] == "with":
+                self._with_block(op, record)
+            else:
+                record(op, self._classify(op, lambda: self.do(op)), None)
+            if trace and str(trace[-1][0]).startswith("UNEXPECTED:"):
                 break
         return trace
+
+
+def _reraise(e):
+    raise e
+
+
+WITH_EXC = {"Exception": ValueError, "KeyboardInterrupt": KeyboardInterrupt, "SystemExit": SystemExit,
+            "GeneratorExit": GeneratorExit, "RuntimeError": RuntimeError}
+WITH_KINDS = ["normal", "Exception", "KeyboardInterrupt", "SystemExit", "GeneratorExit", "RuntimeError"]
+
+
+def _expand(ops):
+    """["with", items, kind, suppress_errors, fault] = enter a WriteGroup block, insert, leave normally (commit) or by an
+    exception of class kind (abort; abortf when the transport fails meanwhile).  Model, simulation and oracle work on
+    the primitive steps."""
+    out = []
+    for op in ops:
+        if op[0] == "with":
+            _, ks, kind, sup, fault = op
+            out.append(["start"])
+            out += [["ins", k] for k in ks]
+            out.append(["commit"] if kind == "normal" else (["abortf", bool(sup)] if fault else ["abort"]))
+        else:
+            out.append(op)
+    return out
 
 
 def _ensure_setup():
@@ -589,7 +674,7 @@ def impl_obs(inp, obs):
         return obs
     # where the MODEL stops making claims (its broken flag) only [result, visible, names changed] is compared
     out, sim = [], Sim(inp["fmt"])
-    for op, e in zip(inp["ops"], obs["ops"]):
+    for op, e in zip(_expand(inp["ops"]), obs["ops"]):
         if sim.broken:
             out.append(Tag("broken"))
             continue
@@ -617,7 +702,7 @@ def _op(op):
 
 
 def model_term(inp):
-    return "run_case %s %s" % (coq_N(FMTS[inp["fmt"]][1]), coq_list(inp["ops"], _op))
+    return "run_case %s %s" % (coq_N(FMTS[inp["fmt"]][1]), coq_list(_expand(inp["ops"]), _op))
 
 
 # --------------------------------------------------------------------------
@@ -667,6 +752,9 @@ def _check_trace(fmt, ops, tr):
         if ex["missing_files"]:
             return where + "pack-names lists packs that are not in packs/: %r" % (ex["missing_files"],)
         ok_commit = op[0] == "commit" and not isinstance(res, Err)
+        if ex.get("raised") not in (None, "normal") and (vis != prev_vis or changed):
+            return where + ("a `with WriteGroup(repo)` block left by %s COMMITTED its half-filled write group: "
+                            "visible %r -> %r" % (ex["raised"], prev_vis, vis))
         if not ok_commit:
             if vis != prev_vis or changed:
                 return where + "visible content / pack-names changed by a non-commit or refused operation (%r -> %r)" % (prev_vis, vis)
@@ -691,7 +779,7 @@ def oracle(inp, obs):
         return "driver error " + str(obs)
     for which in ("ops", "twin"):
         if obs[which] is not None:
-            v = _check_trace(inp["fmt"], inp[which], obs[which])
+            v = _check_trace(inp["fmt"], _expand(inp[which]), obs[which])
             if v:
                 return which + ": " + v
     if obs["twin"] is not None:
@@ -724,7 +812,7 @@ def _sim_facts(ops, fmt):
 def finding_matches(fid, inp, obs, why):
     if inp["fmt"] != "knit":
         return False
-    facts = [_sim_facts(inp[w], inp["fmt"]) for w in ("ops", "twin") if inp.get(w) is not None]
+    facts = [_sim_facts(_expand(inp[w]), inp["fmt"]) for w in ("ops", "twin") if inp.get(w) is not None]
     if fid == "C06-knit-stale-missing-parents":
         return any(f[1] for f in facts)
     return False
@@ -763,7 +851,13 @@ def _gen_ops(rng, fmt, n, sim=None, allow_end=True):
             break
         if sim.wg is None:
             x = rng.random()
-            if x < 0.55:
+            if x < 0.12:
+                w = _gen_with(rng, fmt, sim, used_names)
+                if w:
+                    ops.append(w)
+                    for sub in _expand([w]):
+                        last[0] = sim.step(sub)
+            elif x < 0.55:
                 emit(["start"])
             elif x < 0.80 and (sim.upload or rng.random() < 0.3):
                 toks = [list(t) for t in rng.sample(sim.upload, rng.randint(1, len(sim.upload)))] if sim.upload else []
@@ -821,6 +915,26 @@ def _gen_ops(rng, fmt, n, sim=None, allow_end=True):
             else:
                 emit(["abort"])
     return ops, sim
+
+
+def _gen_with(rng, fmt, sim, used_names=()):
+    """A `with WriteGroup(repo, suppress_errors)` block: some inserts, then normal exit or an exception of every kind
+    that can leave a with block -- ordinary Exception subclasses and the BaseException-only ones (KeyboardInterrupt,
+    SystemExit, GeneratorExit) -- optionally while the transport fails."""
+    view = sim.view()
+    if rng.random() < 0.5:
+        r = rng.choice([1, 2, 3, 4])
+        ks = [k for k in _rev_items(fmt, r) if k not in view]
+        rng.shuffle(ks)
+        if ks and rng.random() < 0.5:
+            ks = ks[:rng.randint(1, len(ks))]       # interrupted half way
+    else:
+        ks = [k for k in rng.sample(items_of(fmt), rng.randint(0, 4)) if k not in view]
+    kind = "normal" if rng.random() < 0.25 else rng.choice(WITH_KINDS[1:])
+    if kind == "normal" and ks and (tuple(ks) in sim.upload or tuple(ks) in sim.listed or tuple(ks) in used_names):
+        return None
+    fault = kind != "normal" and rng.random() < 0.15
+    return ["with", ks, kind, rng.random() < 0.5, fault]
 
 
 def _gen_chain(rng, fmt):
@@ -890,7 +1004,7 @@ def _twin_abort(rng, fmt):
         if not ins:
             continue
         s2 = Sim(fmt)
-        for op in pre + [["start"]] + ins:
+        for op in _expand(pre) + [["start"]] + ins:
             s2.step(op)
         mid = [["start"]] + ins
         if rng.random() < 0.4:
@@ -898,6 +1012,9 @@ def _twin_abort(rng, fmt):
                 continue
             mid.append(["commit"])
         mid.append(["abortf", rng.random() < 0.6] if rng.random() < 0.5 else ["abort"])
+        if len(mid) == len(ins) + 2 and rng.random() < 0.4:
+            # the aborted group as a with-block left by an exception
+            mid = [["with", [o[1] for o in ins], rng.choice(WITH_KINDS[1:]), rng.random() < 0.5, rng.random() < 0.2]]
         post = [["start"]]
         for k in rng.sample(items_of(fmt), rng.randint(1, 3)):
             if k not in view and ["ins", k] not in post:
@@ -943,6 +1060,16 @@ def corpus():
         # chain of two new revisions lacking a text of the older one: must be refused
         {"fmt": "2a", "ops": [["start"]] + [["ins", x] for x in (1, 11, 21, 30, 40, 41, 2, 12, 22, 43)] + [["commit"], ["ins", 42],
                               ["commit"]], "twin": None},
+        # `with WriteGroup(repo):` blocks (breezy.repository.WriteGroup): normal exit commits, EVERY exception aborts --
+        # also the BaseException-only ones (Ctrl-C, SystemExit, GeneratorExit), also while the transport fails
+        {"fmt": "2a", "ops": [["with", [41, 42], "KeyboardInterrupt", False, False], ["with", [51], "normal", False, False],
+                              ["with", [1, 11], "SystemExit", True, False], ["with", [43], "GeneratorExit", False, True],
+                              ["with", [52], "Exception", True, True], ["with", [1], "normal", False, False],
+                              ["abort"]], "twin": None},
+        {"fmt": k, "ops": [["with", [41, 1, 11], "KeyboardInterrupt", True, False], ["start"], ["ins", 42], ["commit"]],
+         "twin": [["start"], ["ins", 42], ["commit"]], "tail": 3, "twin_kind": "aborted group"},
+        {"fmt": "2a-stacked", "ops": [["with", [2, 12, 22, 30, 43, 11, 21], "SystemExit", False, False],
+                                      ["with", [2, 12, 22, 30, 43, 11, 21], "normal", False, False]], "twin": None},
         # plain behaviour
         {"fmt": k, "ops": [["start"], ["ins", 43], ["commit"], ["ins", 41], ["commit"]], "twin": None},
         {"fmt": "2a", "ops": [["start"], ["ins", 1], ["commit"], ["ins", 11], ["commit"], ["ins", 21], ["ins", 30], ["commit"],
@@ -976,7 +1103,7 @@ def cases(rng, tier):
 def nontrivial(inp, obs):
     if isinstance(obs, Err):
         return False
-    kinds = {op[0] for op in inp["ops"]}
+    kinds = {op[0] for op in _expand(inp["ops"])}
     refused = any(isinstance(e[0], Err) and str(e[0]).startswith("BzrCheckError") for e in obs["ops"])
     return refused or (("ins" in kinds) and bool(kinds & {"abort", "suspend", "resume"}))
 
@@ -985,11 +1112,16 @@ def distribution(inputs, observations):
     d = {"by_fmt": {}, "ops": {}, "results": {}, "twins": {}, "accepted_commits_with_content": 0}
     for i, o in zip(inputs, observations):
         d["by_fmt"][i["fmt"]] = d["by_fmt"].get(i["fmt"], 0) + 1
+        for op in i["ops"]:
+            if op[0] == "with":
+                d.setdefault("with_blocks", {})
+                key = op[2] + ("+fault" if op[4] else "")
+                d["with_blocks"][key] = d["with_blocks"].get(key, 0) + 1
         if i.get("twin") is not None:
             d["twins"][i["twin_kind"]] = d["twins"].get(i["twin_kind"], 0) + 1
         if isinstance(o, Err):
             continue
-        for op, e in zip(i["ops"], o["ops"]):
+        for op, e in zip(_expand(i["ops"]), o["ops"]):
             d["ops"][op[0]] = d["ops"].get(op[0], 0) + 1
             r = str(e[0]) if isinstance(e[0], (Err, Tag)) else "tokens"
             key = op[0] + ":" + r
@@ -1010,7 +1142,7 @@ def shrink(inp, fails):
             cand = dict(inp, ops=ops[:i] + ops[i + 1:])
             s = Sim(inp["fmt"])
             ok = True
-            for op in cand["ops"]:
+            for op in _expand(cand["ops"]):
                 if op[0] in ("ins", "suspend", "suspendf") and s.wg is None or op[0] == "reopen" and s.wg is not None:
                     ok = False
                     break
